@@ -94,7 +94,7 @@ class XPathFunction(XPathToken):
         else:
             self.clear()
             for arg in args:
-                if isinstance(arg, XPathToken):
+                if isinstance(arg, XPathToken) and not isinstance(arg, XPathFunction):
                     self._items.append(arg)
                 else:
                     value = self.validated_argument(arg, context)
